@@ -1,9 +1,11 @@
 import UralModel.Lemmas.YoutubeReparse
 /-!
 What the fields of a record returned by `parse_youtube_url` are made of: a playlist id is a
-non-empty run without `&` and `#` (the regex group), a name / channel id is a piece of the path
-of the split url (no `/`, `?`, `#`, TAB, CR, LF).  With these, the hypothesis `Good` of the
-round trip shrinks to `Residual` (`Props/C19/Youtube.lean`).
+non-empty run without `&`, `#`, `?`, `/`, `%` (the regex group) and without TAB / CR / LF (they are
+removed from the url before the regex runs), a name / channel id is a piece of the path of the
+split url (no `/`, `?`, `#`, TAB, CR, LF), hence a piece of a url in which neither continuation
+pattern was found.  With these, the hypothesis `Good` of the round trip is discharged for every
+record the parser returns (`good_of_fields`).
 -/
 namespace Ural.Youtube
 open Ural Ural.Py Ural.C19 Ural.HostnameTrieSet
@@ -15,7 +17,7 @@ def PathPiece (s : Str) : Prop := ∀ c ∈ s, c ≠ '/' ∧ c ≠ '?' ∧ c ≠
 without `&`, `#`, `?`; a user name / channel id is a piece of the path without `&`, stripped of
 white space at both ends; a channel name is a piece of the path without `&` -/
 def Fields : Record → Prop
-  | .video _ (some p) => p ≠ [] ∧ ∀ c ∈ p, c ≠ '&' ∧ c ≠ '#' ∧ c ≠ '?'
+  | .video _ (some p) => PlainPlaylist p
   | .video _ none => True
   | .user name => PathPiece name ∧ '&' ∉ name ∧ Stripped name
   | .channel (some cid) _ => PathPiece cid ∧ '&' ∉ cid ∧ Stripped cid
@@ -50,16 +52,64 @@ theorem litValueSearch_some (lit stops : List Char) (s v : Str) (h : litValueSea
         · simp at hh
       · simp at hh
 
-theorem queryList_fields (s : Str) (pl : Option Str) (h : queryList s = pl) (id : Str) :
-    Fields (.video id pl) := by
+/-- the value found is a piece of the subject -/
+theorem litValueSearch_infix (lit stops : List Char) (s v : Str) (h : litValueSearch lit stops s = some v) :
+    v <:+: s := by
+  induction s with
+  | nil => simp [litValueSearch] at h
+  | cons c cs ih =>
+    simp only [litValueSearch] at h
+    cases hh : litValueHere lit stops (c :: cs) with
+    | none => rw [hh] at h; exact (ih h).trans (List.suffix_cons _ _).isInfix
+    | some w =>
+      rw [hh] at h
+      simp only [Option.some.injEq] at h
+      subst h
+      unfold litValueHere at hh
+      cases hm : matchLit lit (c :: cs) with
+      | none => rw [hm] at hh; simp at hh
+      | some r =>
+        rw [hm] at hh
+        simp only [] at hh
+        split at hh
+        · simp only [Option.some.injEq] at hh
+          subst hh
+          obtain ⟨pre, hpre, _⟩ := matchLit_spec lit _ r hm
+          unfold valueRun
+          exact (List.takeWhile_prefix _).isInfix.trans (List.IsSuffix.isInfix ⟨pre, hpre.symm⟩)
+        · simp at hh
+
+theorem queryList_fields (s : Str) (hs : ∀ c ∈ s, isUnsafeUrlChar c = false) (pl : Option Str)
+    (h : queryList s = pl) (id : Str) : Fields (.video id pl) := by
   cases pl with
   | none => trivial
   | some p =>
     obtain ⟨h1, h2⟩ := litValueSearch_some _ _ _ _ h
     refine ⟨h1, fun c hc => ?_⟩
     have := h2 c hc
-    simp only [stopsAmpHashQm, List.mem_cons, List.not_mem_nil, or_false, not_or] at this
-    exact this
+    simp only [stopsList, List.mem_cons, List.not_mem_nil, or_false, not_or] at this
+    exact ⟨this.1, this.2.1, this.2.2.1, this.2.2.2.1, this.2.2.2.2,
+      hs c ((litValueSearch_infix _ _ _ _ h).subset hc)⟩
+
+/-- the name / id a user or channel record is made of: what its canonical url ends with -/
+def nameField : Record → Option Str
+  | .user name => some name
+  | .channel (some cid) _ => some cid
+  | .channel none (some name) => some name
+  | _ => none
+
+/-- the name / id of the record, if it has one, is a piece of `path` -/
+def InPath (path : Str) (r : Record) : Prop := ∀ x, nameField r = some x → x <:+: path
+
+theorem inPath_video (path id : Str) (pl : Option Str) : InPath path (.video id pl) := by
+  intro x hx; simp [nameField] at hx
+
+theorem second_infix (path x : Str) (h : second path = .ok (some x)) : x <:+: path := by
+  rcases second_cases path with h2 | ⟨y, h2, hy⟩
+  · rw [h2] at h; simp at h
+  · rw [h2] at h
+    simp only [Except.ok.injEq, Option.some.injEq] at h
+    exact h ▸ pathsplit_infix path y hy
 
 /-! ## a path behind a host is empty or starts with `/` -/
 
@@ -148,7 +198,8 @@ theorem not_mem_strip (x : Str) (c : Char) (h : c ∉ x) : c ∉ strip x :=
 
 theorem routeName_fields (path : Str) (r : Record)
     (hp : ∀ c ∈ path, c ≠ '?' ∧ c ≠ '#' ∧ isUnsafeUrlChar c = false)
-    (hshape : path = [] ∨ ∃ p, path = '/' :: p) (h : routeName path = some r) : Fields r := by
+    (hshape : path = [] ∨ ∃ p, path = '/' :: p) (h : routeName path = some r) :
+    Fields r ∧ InPath path r := by
   unfold routeName at h
   simp only [] at h
   split at h
@@ -157,6 +208,11 @@ theorem routeName_fields (path : Str) (r : Record)
     · simp at h
     · simp only [Option.some.injEq] at h
       subst h
+      refine ⟨?_, fun x hx => by
+        simp only [nameField, Option.some.injEq] at hx
+        subst hx
+        exact (((cutAmp_prefix _).isInfix.trans (lstripChars_suffix _ _).isInfix).trans
+          (lstripChars_suffix _ _).isInfix).trans (rstripChars_prefix' _ _).isInfix⟩
       -- the stripped path is `/` followed by a `/`-free rest
       have hsub : ∀ c ∈ rstripChars path ['/'], c ∈ path := by
         intro c hc
@@ -199,13 +255,13 @@ theorem routePath_fields (fix : Bool) (path query : Str) (pl : Option Str) (r : 
     (hp : ∀ c ∈ path, c ≠ '?' ∧ c ≠ '#' ∧ isUnsafeUrlChar c = false)
     (hshape : path = [] ∨ ∃ p, path = '/' :: p)
     (hpl : ∀ id, Fields (.video id pl))
-    (h : routePath fix path query pl = .ok (some r)) : Fields r := by
+    (h : routePath fix path query pl = .ok (some r)) : Fields r ∧ InPath path r := by
   unfold routePath at h
   split at h
   · split at h
     · simp only [Except.ok.injEq] at h
       obtain ⟨_, id, e⟩ := videoOf_valid fix _ pl r h
-      rw [e]; exact hpl id
+      rw [e]; exact ⟨hpl id, inPath_video _ _ _⟩
     · simp at h
   · split at h
     · unfold routeVideoFile at h
@@ -213,7 +269,7 @@ theorem routePath_fields (fix : Bool) (path query : Str) (pl : Option Str) (r : 
       · simp at h
       · simp only [Except.ok.injEq] at h
         obtain ⟨_, id, e⟩ := videoOf_valid fix _ pl r h
-        rw [e]; exact hpl id
+        rw [e]; exact ⟨hpl id, inPath_video _ _ _⟩
     · split at h
       · unfold routeUser at h
         cases hs : second path with
@@ -229,7 +285,10 @@ theorem routePath_fields (fix : Bool) (path query : Str) (pl : Option Str) (r : 
             · simp only [Option.some.injEq] at h
               subst h
               have hpp := pathPiece_cutAmp x (pathPiece_of_pathsplit path x hp (second_mem path x hs))
-              exact ⟨pathPiece_strip _ hpp.1, not_mem_strip _ _ hpp.2, strip_stripped _⟩
+              exact ⟨⟨pathPiece_strip _ hpp.1, not_mem_strip _ _ hpp.2, strip_stripped _⟩, fun y hy => by
+                simp only [nameField, Option.some.injEq] at hy
+                subst hy
+                exact ((strip_infix _).trans (cutAmp_prefix _).isInfix).trans (second_infix path x hs)⟩
       · split at h
         · unfold routeC at h
           cases hs : second path with
@@ -244,8 +303,12 @@ theorem routePath_fields (fix : Bool) (path query : Str) (pl : Option Str) (r : 
               · simp at h
               · simp only [Option.some.injEq] at h
                 subst h
-                exact pathPiece_cutAmp _
-                  (pathPiece_lstrip x _ (pathPiece_of_pathsplit path x hp (second_mem path x hs)))
+                exact ⟨pathPiece_cutAmp _
+                  (pathPiece_lstrip x _ (pathPiece_of_pathsplit path x hp (second_mem path x hs))), fun y hy => by
+                  simp only [nameField, Option.some.injEq] at hy
+                  subst hy
+                  exact ((cutAmp_prefix _).isInfix.trans (lstripChars_suffix _ _).isInfix).trans
+                    (second_infix path x hs)⟩
         · split at h
           · unfold routeChannel at h
             cases hs : second path with
@@ -261,7 +324,10 @@ theorem routePath_fields (fix : Bool) (path query : Str) (pl : Option Str) (r : 
                 · simp only [Option.some.injEq] at h
                   subst h
                   have hpp := pathPiece_cutAmp x (pathPiece_of_pathsplit path x hp (second_mem path x hs))
-                  exact ⟨pathPiece_strip _ hpp.1, not_mem_strip _ _ hpp.2, strip_stripped _⟩
+                  exact ⟨⟨pathPiece_strip _ hpp.1, not_mem_strip _ _ hpp.2, strip_stripped _⟩, fun y hy => by
+                    simp only [nameField, Option.some.injEq] at hy
+                    subst hy
+                    exact ((strip_infix _).trans (cutAmp_prefix _).isInfix).trans (second_infix path x hs)⟩
           · split at h
             · unfold routeShorts at h
               cases hs : second path with
@@ -275,7 +341,7 @@ theorem routePath_fields (fix : Bool) (path query : Str) (pl : Option Str) (r : 
                   split at h
                   · simp only [Option.some.injEq] at h
                     subst h
-                    trivial
+                    exact ⟨trivial, fun y hy => by simp [nameField] at hy⟩
                   · simp at h
             · simp only [Except.ok.injEq] at h
               exact routeName_fields path r hp hshape h
@@ -284,7 +350,7 @@ theorem parseSplit_fields (fix : Bool) (parsed : SplitResult) (pl : Option Str) 
     (hp : ∀ c ∈ parsed.path, c ≠ '?' ∧ c ≠ '#' ∧ isUnsafeUrlChar c = false)
     (hshape : parsed.path = [] ∨ ∃ p, parsed.path = '/' :: p)
     (hpl : ∀ id, Fields (.video id pl))
-    (h : parseSplit fix parsed pl = .ok (some r)) : Fields r := by
+    (h : parseSplit fix parsed pl = .ok (some r)) : Fields r ∧ InPath parsed.path r := by
   unfold parseSplit at h
   split at h
   · unfold routeShortHost at h
@@ -295,13 +361,13 @@ theorem parseSplit_fields (fix : Bool) (parsed : SplitResult) (pl : Option Str) 
         · simp at h
         · simp only [Except.ok.injEq] at h
           obtain ⟨_, id, e⟩ := videoOf_valid fix _ pl r h
-          rw [e]; exact hpl id
+          rw [e]; exact ⟨hpl id, inPath_video _ _ _⟩
     · simp at h
   · split at h
     · split at h
       · simp only [Except.ok.injEq, Option.some.injEq] at h
         subst h
-        exact hpl _
+        exact ⟨hpl _, inPath_video _ _ _⟩
       · simp at h
     · exact routePath_fields fix _ _ pl r hp hshape hpl h
 
@@ -314,17 +380,41 @@ theorem netloc_ne_nil_of_youtube (puny : Str → Str) (t : T) (parsed : SplitRes
   rw [e, this] at h
   simp [matchHost] at h
 
-/-- **what the parser guarantees about the fields of the record it returns** -/
-theorem parse_fields (puny : Str → Str) (t : T) (url : Str) (fix : Bool) (r : Record)
-    (h : parse_youtube_url puny t url fix = .ok (some r)) : Fields r := by
+theorem stripUnsafe_safe (u : Str) : ∀ c ∈ stripUnsafe u, isUnsafeUrlChar c = false := by
+  intro c hc
+  have := (List.mem_filter.mp hc).2
+  simpa using this
+
+/-- the path of the split url is a piece of a url without continuation pattern -/
+theorem safe_urlsplit_path_noCont (u : Str) (parsed : SplitResult) (hu : ∀ c ∈ u, isUnsafeUrlChar c = false)
+    (hn : NoCont u) (hs : safe_urlsplit u = some parsed) : NoCont parsed.path := by
+  unfold safe_urlsplit at hs
+  split at hs
+  · have h1 : ∀ c ∈ "http://".toList ++ u, isUnsafeUrlChar c = false := by
+      intro c hc
+      rcases List.mem_append.mp hc with h | h
+      · exact (show ∀ c ∈ "http://".toList, isUnsafeUrlChar c = false by decide) c h
+      · exact hu c h
+    exact noCont_of_infix _ _ (urlsplit_path_infix _ _ parsed hs h1)
+      (noCont_prefix "http://".toList u (by decide) (by decide) hn)
+  · exact noCont_of_infix _ _ (urlsplit_path_infix _ _ parsed hs hu) hn
+
+/-- **what the parser guarantees about the fields of the record it returns**, and: the name /
+id of a user or channel holds no continuation pattern -/
+theorem parse_fields_noCont (puny : Str → Str) (t : T) (url : Str) (fix : Bool) (r : Record)
+    (h : parse_youtube_url puny t url fix = .ok (some r)) :
+    Fields r ∧ ∀ x, nameField r = some x → NoCont x := by
   unfold parse_youtube_url at h
   simp only [] at h
-  have hpl : ∀ id, Fields (.video id (queryList (infer url))) := fun id => queryList_fields _ _ rfl id
+  have hsafe := stripUnsafe_safe (infer url)
+  have hpl : ∀ id, Fields (.video id (queryList (stripUnsafe (infer url)))) :=
+    fun id => queryList_fields _ hsafe _ rfl id
   split at h
   · simp only [Except.ok.injEq] at h
     obtain ⟨_, id, e⟩ := videoOf_valid fix _ _ r h
-    rw [e]; exact hpl id
-  · split at h
+    rw [e]; exact ⟨hpl id, fun x hx => by simp [nameField] at hx⟩
+  · rename_i hcont
+    split at h
     · simp at h
     · rename_i parsed hs
       split at h
@@ -334,6 +424,29 @@ theorem parse_fields (puny : Str → Str) (t : T) (url : Str) (fix : Bool) (r : 
         have hshape : parsed.path = [] ∨ ∃ p, parsed.path = '/' :: p := by
           unfold safe_urlsplit at hs
           exact urlsplit_path_shape _ _ parsed hs (netloc_ne_nil_of_youtube puny t parsed hyt)
-        exact parseSplit_fields fix parsed _ r (safe_urlsplit_path_chars _ parsed hs) hshape hpl h
+        have hf := parseSplit_fields fix parsed _ r (safe_urlsplit_path_chars _ parsed hs) hshape hpl h
+        have hnc := safe_urlsplit_path_noCont _ parsed hsafe (noCont_of_or _ hcont) hs
+        exact ⟨hf.1, fun x hx => noCont_of_infix _ _ (hf.2 x hx) hnc⟩
+
+theorem parse_fields (puny : Str → Str) (t : T) (url : Str) (fix : Bool) (r : Record)
+    (h : parse_youtube_url puny t url fix = .ok (some r)) : Fields r :=
+  (parse_fields_noCont puny t url fix r h).1
+
+/-- every record the parser returns (with `fix_common_mistakes`) has what the round trip needs -/
+theorem good_of_fields (r : Record) (hv : Valid true r) (hf : Fields r)
+    (hn : ∀ x, nameField r = some x → NoCont x) : Good r := by
+  match r, hv, hf, hn with
+  | .video _ none, _, _, _ => trivial
+  | .short _, _, _, _ => trivial
+  | .video _ (some p), _, hf, _ => exact hf
+  | .user name, _, hf, hn =>
+    exact ⟨fun c hc => ⟨(hf.1 c hc).1, (hf.1 c hc).2.1, (hf.1 c hc).2.2.1, fun e => hf.2.1 (e ▸ hc),
+      (hf.1 c hc).2.2.2⟩, hf.2.2, hn _ rfl⟩
+  | .channel (some cid) none, _, hf, hn =>
+    exact ⟨fun c hc => ⟨(hf.1 c hc).1, (hf.1 c hc).2.1, (hf.1 c hc).2.2.1, fun e => hf.2.1 (e ▸ hc),
+      (hf.1 c hc).2.2.2⟩, hf.2.2, hn _ rfl⟩
+  | .channel none (some name), _, hf, hn =>
+    exact ⟨fun c hc => ⟨(hf.1 c hc).1, (hf.1 c hc).2.1, (hf.1 c hc).2.2.1, fun e => hf.2 (e ▸ hc),
+      (hf.1 c hc).2.2.2⟩, hn _ rfl⟩
 
 end Ural.Youtube
